@@ -267,6 +267,29 @@ class MayRaise:
                     out.add(("INT", p_, lo, hi))
                 if one_char:
                     out.add(("LEN==", p_, "1"))
+            # index/buffer pairs: an int parameter that is a valid index of a sized parameter at every call site
+            for i, p_ in enumerate(ps):
+                if p_ in stores or annos.get(p_) != "int":
+                    continue
+                for j, v_ in enumerate(ps):
+                    if v_ in stores or not any(k in annos.get(v_, "") for k in ("bytes", "bytearray", "memoryview")):
+                        continue
+                    ok_all = True
+                    for cfi, call in sites:
+                        ai, d1 = arg_of(call, i, p_)
+                        av, d2 = arg_of(call, j, v_)
+                        if ai is None or av is None or d2:
+                            ok_all = False
+                            break
+                        cf = self.flow_for(cfi).facts_at.get(id(call), frozenset())
+                        okk, _ = self.index_in_range(norm(av), ai, cf)
+                        if not okk:
+                            ok_all = False
+                            break
+                    if ok_all:
+                        out.add(("LTLEN", p_, v_))
+                        out.add(("GE0", p_))
+                        out.add(("T", v_))
             got = frozenset(out)
             assumed_names = {f[1] for f in hyp if f[0] == "GE0"}
             got_names = {f[1] for f in got if f[0] == "GE0"}
@@ -607,8 +630,14 @@ class MayRaise:
         if isinstance(idx, ast.Name):
             if is_idx(it):
                 return True, "index variable ranges over the sequence"
-            if ("LTLEN", it, x) in facts and (("GE0", it) in facts or any(f[0] == "LE" and f[2] == it and _const_ge(f[1], 0) for f in facts)):
+            nonneg_it = ("GE0", it) in facts or any(f[0] == "LE" and f[2] == it and _const_ge(f[1], 0) for f in facts)
+            if ("LTLEN", it, x) in facts and nonneg_it:
                 return True, "0 <= i < len(x) by loop guard"
+            if nonneg_it and ("LEN>=", x, f"{it} + 1") in facts:
+                return True, "len(x) >= i + 1 was checked"
+            # i < N (range bound) and N <= len(x) (an earlier length check)
+            if nonneg_it and any(f[0] == "LT" and f[1] == it and ("LEN>=", x, f[2]) in facts for f in facts):
+                return True, "0 <= i < N <= len(x)"
             # same-length alias: IDX(i, y) with SAMELEN(x, y)
             for f in facts:
                 if f[0] == "IDX" and f[1] == it and (("SAMELEN", x, f[2]) in facts or ("SAMELEN", f[2], x) in facts):
@@ -800,6 +829,14 @@ class MayRaise:
             b = self.ival(e.orelse, f_f, fi)
             return (min(a[0], b[0]), max(a[1], b[1]))
         if isinstance(e, ast.Call) and isinstance(e.func, ast.Name) and e.func.id == "len":
+            a0 = e.args[0] if e.args else None
+            if isinstance(a0, ast.Name) and not isinstance(fi.node, ast.Lambda):
+                # len(x) where x is bound once to <int>.to_bytes(n, ...): exactly n octets
+                binds = [x.value for x in walk_no_nested(fi.node) if isinstance(x, (ast.Assign, ast.AnnAssign)) and x.value is not None and
+                         any(isinstance(t_, ast.Name) and t_.id == a0.id for t_ in (x.targets if isinstance(x, ast.Assign) else [x.target]))]
+                if len(binds) == 1 and isinstance(binds[0], ast.Call) and isinstance(binds[0].func, ast.Attribute) and binds[0].func.attr == "to_bytes" and binds[0].args:
+                    nl, nh = self.ival(binds[0].args[0], facts, fi)
+                    return (max(0, nl), min(MAXSIZE, nh))
             return (0, MAXSIZE)        # len() is a Py_ssize_t
         if isinstance(e, ast.Call) and isinstance(e.func, ast.Name) and e.func.id not in fi.params():
             q = self.m.resolve_name(fi.module, e.func.id)
@@ -1289,7 +1326,7 @@ class MayRaise:
             return ok, f"`{x}[:1]` has one octet iff `{x}` is non-empty" + ("" if ok else " (not established)")
         if isinstance(lo, ast.Name) and isinstance(hi, ast.BinOp) and isinstance(hi.op, ast.Add) and norm(hi.left) == lo.id and const_int(hi.right) == 1:
             i = lo.id
-            have_len = ("LEN>=", x, f"{i} + 1") in facts
+            have_len = ("LEN>=", x, f"{i} + 1") in facts or ("LTLEN", i, x) in facts or ("IDX", i, x) in facts
             nonneg = ("GE0", i) in facts or any(f[0] == "LE" and f[2] == i and _const_ge(f[1], 0) for f in facts)
             return (have_len and nonneg), f"needs len({x}) >= {i}+1 ({'ok' if have_len else 'missing'}) and {i} >= 0 ({'ok' if nonneg else 'missing'})"
         return False, "slice bounds not recognised"
